@@ -53,9 +53,9 @@ def handle (α : Type) [Arith α] [Wire α] : List Sexp → Sexp
 
 /-- exact oracle: the PROPERTY evaluated on the implementation's own answer. -/
 def oracle : List Sexp → Sexp
-  | [.atom "check-solution", lm, .atom _solver, res] =>
+  | [.atom "check-solution", lm, .atom solver, res] =>
     match (LinModel.dec lm : Option (LinModel (Ext Rat))), (ImplRes.dec res : Option (ImplRes (Ext Rat))) with
-    | some lm, some (.ok s byname) => SolveOracle.checkSolution lm s byname
+    | some lm, some (.ok s byname) => SolveOracle.checkSolution lm solver s byname
     | some _, some _ => app "ok" [.atom "no-solution"]
     | _, _ => app "err" [.atom "decode"]
   | _ => app "err" [.atom "bad-request"]
